@@ -59,6 +59,184 @@ func (m *Monitor) Check(w *World, pre raft.VNode, op Op, post raft.VNode) *Bad {
 		return &Bad{"C05", "in-memory (term,vote) differs from the durable value"}
 	}
 	m.ackVote = [2]uint64{post.DurTerm, post.DurVote}
+	if bad := m.checkObs(w, pre, op, post); bad != nil {
+		return bad
+	}
+	if bad := m.checkCrash(w, pre, op, post); bad != nil {
+		return bad
+	}
+	if bad := m.checkSnapshotLabel(w, pre, op, post); bad != nil {
+		return bad
+	}
+	return nil
+}
+
+func voters(c raft.VConfig) []uint64 {
+	var vs []uint64
+	for _, n := range c.Nodes {
+		if n.Voter {
+			vs = append(vs, n.ID)
+		}
+	}
+	return vs
+}
+
+// checkObs evaluates the leader-side guards exactly where the real code acts.
+func (m *Monitor) checkObs(w *World, pre raft.VNode, op Op, post raft.VNode) *Bad {
+	for _, ob := range w.obs {
+		o := ob.O
+		if o.Role != "leader" {
+			continue
+		}
+		switch ob.Point {
+		case "commitLog":
+			// C06: the leader advances its commit index to Arg: a majority of the voters of the
+			// configuration in force (Latest) must hold it durably; self only if voter
+			if o.Arg <= o.CommitIndex {
+				continue
+			}
+			vs := voters(o.Latest)
+			cnt := 0
+			for _, v := range vs {
+				if v == w.Self {
+					if o.Flushed >= o.Arg {
+						cnt++
+					}
+				} else if o.Match[v] >= o.Arg {
+					cnt++
+				}
+			}
+			if 2*cnt <= len(vs) {
+				return &Bad{"C06", fmt.Sprintf("leader commits index %d acknowledged by %d of %d voters of the latest configuration", o.Arg, cnt, len(vs))}
+			}
+		case "appendEntry":
+			if o.Entry == nil || o.Entry.Typ != 6 || o.Entry.Cfg == nil {
+				continue
+			}
+			// observation is taken right after the append, before changeConfig: Latest is still the predecessor
+			prevC, newC := o.Latest, *o.Entry.Cfg
+			// C08: one voter at a time, a voter remains
+			pv, nv := map[uint64]bool{}, map[uint64]bool{}
+			for _, v := range voters(prevC) {
+				pv[v] = true
+			}
+			for _, v := range voters(newC) {
+				nv[v] = true
+			}
+			diff := 0
+			for v := range pv {
+				if !nv[v] {
+					diff++
+				}
+			}
+			for v := range nv {
+				if !pv[v] {
+					diff++
+				}
+			}
+			if diff > 1 || len(nv) == 0 {
+				return &Bad{"C08", fmt.Sprintf("configuration appended at %d changes %d voters / leaves %d voters", o.Entry.Index, diff, len(nv))}
+			}
+			// C08: only when the previous configuration is committed, the leader has committed an entry of
+			// its own term, and no transfer is in progress
+			if o.Latest.Index != o.Committed.Index {
+				return &Bad{"C08", fmt.Sprintf("configuration appended at %d while configuration %d is not committed", o.Entry.Index, o.Latest.Index)}
+			}
+			if o.CommitIndex < o.StartIndex {
+				return &Bad{"C08", fmt.Sprintf("configuration appended at %d before the leader committed an entry of its term (commit %d < start %d)", o.Entry.Index, o.CommitIndex, o.StartIndex)}
+			}
+			if o.Transfer {
+				return &Bad{"C16", fmt.Sprintf("configuration appended at %d during leadership transfer", o.Entry.Index)}
+			}
+			// C11: promotion only after a completed round that caught up
+			for v := range nv {
+				if !pv[v] && v != w.Self {
+					last, has := o.RoundLast[v]
+					if !has {
+						return &Bad{"C11", fmt.Sprintf("node %d promoted without a promotion round", v)}
+					}
+					if o.Match[v] < last {
+						return &Bad{"C11", fmt.Sprintf("node %d promoted with matchIndex %d below its round's target %d", v, o.Match[v], last)}
+					}
+				}
+			}
+		}
+	}
+	return nil
+}
+
+// checkCrash: C10 on every crash point of the step.
+func (m *Monitor) checkCrash(w *World, pre raft.VNode, op Op, post raft.VNode) *Bad {
+	for _, c := range w.crashStates {
+		mm, ok := c.Restart.(map[string]interface{})
+		if !ok {
+			return &Bad{"C10", "node does not restart from the directory as of crash point " + c.Point}
+		}
+		num := func(k string) uint64 {
+			s, _ := mm[k].(string)
+			var x uint64
+			fmt.Sscanf(s, "#%d", &x)
+			return x
+		}
+		lg, _ := mm["log"].(map[string]interface{})
+		var prev uint64
+		if lg != nil {
+			s, _ := lg["prev"].(string)
+			fmt.Sscanf(s, "#%d", &prev)
+		}
+		if num("lastLogIndex") < num("snapIndex") {
+			return &Bad{"C10", fmt.Sprintf("crash at %s: restart has last log index %d below snapshot index %d", c.Point, num("lastLogIndex"), num("snapIndex"))}
+		}
+		if prev > num("snapIndex") {
+			return &Bad{"C10", fmt.Sprintf("crash at %s: restart has log starting after %d but snapshot at %d", c.Point, prev, num("snapIndex"))}
+		}
+		if num("term") < pre.Term {
+			return &Bad{"C10", fmt.Sprintf("crash at %s: restart has term %d below %d", c.Point, num("term"), pre.Term)}
+		}
+	}
+	return nil
+}
+
+// newestConfigAtOrBelow: the newest configuration entry with index <= idx in the log, else the snapshot label.
+func newestConfigAtOrBelow(d *raft.VNode, idx uint64) (raft.VConfig, bool) {
+	for i := len(d.Log.Entries) - 1; i >= 0; i-- {
+		e := d.Log.Entries[i]
+		if e.Index <= idx && e.Typ == 6 && e.Cfg != nil {
+			c := *e.Cfg
+			c.Index, c.Term = e.Index, e.Term
+			return c, true
+		}
+	}
+	for _, s := range d.SnapsDisk {
+		if s.Index == d.SnapIndex && s.Index <= idx {
+			return s.Config, true
+		}
+	}
+	return raft.VConfig{}, false
+}
+
+// checkSnapshotLabel: C12 when a snapshot was stored by this step.
+func (m *Monitor) checkSnapshotLabel(w *World, pre raft.VNode, op Op, post raft.VNode) *Bad {
+	if op.Kind != "snapRun" || post.SnapResult == nil || post.SnapResult.Err != "" {
+		return nil
+	}
+	idx := post.SnapResult.Index
+	var label *raft.VSnapFile
+	for i := range post.SnapsDisk {
+		if post.SnapsDisk[i].Index == idx {
+			label = &post.SnapsDisk[i]
+		}
+	}
+	if label == nil {
+		return &Bad{"C12", fmt.Sprintf("snapshot %d reported but not on disk", idx)}
+	}
+	if idx != pre.Fsm.Index || label.Term != pre.Fsm.Term {
+		return &Bad{"C12", fmt.Sprintf("snapshot labelled (%d,%d) but the state machine was at (%d,%d)", idx, label.Term, pre.Fsm.Index, pre.Fsm.Term)}
+	}
+	want, ok := newestConfigAtOrBelow(&pre, idx)
+	if ok && (want.Index != label.Config.Index || fmt.Sprint(want.Nodes) != fmt.Sprint(label.Config.Nodes)) {
+		return &Bad{"C12", fmt.Sprintf("snapshot at %d labelled with configuration %d, the configuration in force there is %d", idx, label.Config.Index, want.Index)}
+	}
 	return nil
 }
 
